@@ -168,7 +168,10 @@ def features(spec):
     }
     for l in spec["links"]:
         if l["type"] == "pump" and l["pump_type"] == "HEAD":
-            f["curve_%dpt" % len(spec["curves"][l["curve"]])] = True
+            pts = spec["curves"][l["curve"]]
+            f["curve_%s" % ("%dpt" % len(pts) if len(pts) <= 3 else "multipt")] = True
+            if len(pts) >= 3 and pts[0][0] > 0:
+                f["curve_3plus_first_point_positive_flow"] = True
     for k in set(kinds):
         f["kind:" + k] = True
     return f
@@ -290,3 +293,31 @@ def dd_line(spec, nd, t):
                                       fr(o["demand_multiplier"]), " ".join(ents))
     scale = sum(abs(d["base"]) * max([1.0] + [abs(x) for x in (spec["patterns"][d["pattern"]] if d.get("pattern") else [])]) for d in dem) * abs(o["demand_multiplier"])
     return line.strip(), scale
+
+
+# ----------------------------------------------------------------------------- independent least-squares fit of H = A - B*Q^C
+
+
+def ref_fit_points(pts):
+    """least-squares fit of H = A - B*Q**C to the curve POINTS, independent of wntr / curve_fit: for a fixed C the problem is
+    linear in (A, B); C by a 1-D search (log grid + bounded Brent).  Three points => the interpolant.  Returns (A, B, C, sse)."""
+    import numpy as np
+    from scipy.optimize import minimize_scalar
+
+    Q = np.array([p[0] for p in pts], float)
+    H = np.array([p[1] for p in pts], float)
+
+    def sse(c):
+        M = np.column_stack([np.ones_like(Q), -Q ** c])
+        x = np.linalg.lstsq(M, H, rcond=None)[0]
+        r = M @ x - H
+        return float(r @ r), x
+
+    cs = np.exp(np.linspace(math.log(0.05), math.log(20.0), 400))
+    vals = [sse(c)[0] for c in cs]
+    i = int(np.argmin(vals))
+    lo, hi = cs[max(i - 1, 0)], cs[min(i + 1, len(cs) - 1)]
+    r = minimize_scalar(lambda c: sse(c)[0], bounds=(lo, hi), method="bounded", options={"xatol": 1e-13})
+    c = float(r.x)
+    s, x = sse(c)
+    return float(x[0]), float(x[1]), c, s
